@@ -369,3 +369,66 @@ TRUSTED = [
     "the harness's projection code (event encoding, limb encoder, PRNG)",
     "rustc/std; not trusted: anything under /repo",
 ]
+
+
+_FURTHEST = re.compile(r'<<"FURTHEST", (\d+), (\d+)>>')
+
+
+def tlc_accept(tla, cfg, trace, metadir, timeout=900, xmx="4g", queue="bfs"):
+    """Blocking trace validation: the trace is accepted iff TLC finds a state
+    with every event consumed (reported as the violation of NotAccepted)."""
+    props = ["-Dtlc2.tool.queue.IStateQueue=StateDeque"] if queue == "dfs" else []
+    cmd = _java(xmx=xmx, props=props) + ["-workers", "1", "-metadir", metadir, "-cleanup", "-noGenerateSpecTE",
+                                         "-config", cfg, tla]
+    e = dict(os.environ)
+    e["TRACE"] = trace
+    try:
+        p = subprocess.run(cmd, cwd=SPEC, stdout=subprocess.PIPE, stderr=subprocess.STDOUT, text=True,
+                           timeout=timeout, env=e)
+    except subprocess.TimeoutExpired:
+        shutil.rmtree(metadir, ignore_errors=True)
+        raise ToolError(f"TLC timed out after {timeout}s validating {trace}")
+    shutil.rmtree(metadir, ignore_errors=True)
+    out = p.stdout
+    m = None
+    for m in _STATES.finditer(out):
+        pass
+    gen, dist = (int(m.group(1)), int(m.group(2))) if m else (0, 0)
+    accepted = "Invariant NotAccepted is violated" in out
+    other = re.search(r"Invariant (\w+) is violated", out)
+    f = _FURTHEST.search(out)
+    res = {"trace": trace, "accepted": accepted, "generated": gen, "distinct": dist,
+           "furthest": int(f.group(1)) if f else None, "total": int(f.group(2)) if f else None,
+           "inv_violated": other.group(1) if other and other.group(1) != "NotAccepted" else None}
+    if not accepted and f is None and res["inv_violated"] is None:
+        tail = "\n".join(l for l in out.splitlines() if not l.startswith(("Parsing", "Semantic", "Linting", "State ")))
+        raise ToolError(f"trace validation of {trace} with {tla} failed:\n{tail[-2500:]}")
+    return res
+
+
+def tlc_simulate(tla, cfg, metadir, num, depth, marker="HIST", timeout=900, seed=None):
+    """Run TLC in simulation mode and collect the JSON payload of every
+    <<"MARKER", "json">> line it prints."""
+    cmd = _java(xmx="4g") + ["-workers", "1", "-simulate", f"num={num}", "-depth", str(depth), "-metadir", metadir,
+                             "-cleanup", "-noGenerateSpecTE", "-config", cfg]
+    if seed is not None:
+        cmd += ["-seed", str(seed)]
+    cmd += [tla]
+    try:
+        p = subprocess.run(cmd, cwd=SPEC, stdout=subprocess.PIPE, stderr=subprocess.STDOUT, text=True, timeout=timeout)
+    except subprocess.TimeoutExpired:
+        shutil.rmtree(metadir, ignore_errors=True)
+        raise ToolError(f"TLC simulation timed out after {timeout}s on {tla}")
+    shutil.rmtree(metadir, ignore_errors=True)
+    out = p.stdout
+    pat = re.compile(r'^<<"' + marker + r'", (".*")>>\s*$')
+    items = []
+    for line in out.splitlines():
+        mm = pat.match(line)
+        if mm:
+            items.append(json.loads(mm.group(1)))
+    if "is violated" in out or (p.returncode != 0 and not items):
+        tail = "\n".join(l for l in out.splitlines() if not l.startswith(("Parsing", "Semantic", "Linting")))
+        raise ToolError(f"TLC simulation of {tla} failed:\n{tail[-2500:]}")
+    log(f"[tlc-sim] {tla}: {len(items)} behaviours")
+    return items
